@@ -59,6 +59,19 @@ REQUIRED = [
     "DaeVerif.C19.Props.domain_routing_key_bytes",
     "DaeVerif.C19.Props.value_encoding_little_endian_partial",
     "DaeVerif.C19.Props.value_encoding_big_endian_differs",
+    "DaeVerif.C19.Props.every_build_site_classified",
+    "DaeVerif.C19.Props.classified_sites_exist",
+    "DaeVerif.C19.Props.named_constructors_are_executed",
+    "DaeVerif.C19.Props.reply_direction_key",
+    "DaeVerif.C19.Props.ap_candidates_are_kernel_keys",
+    "DaeVerif.C19.Props.reversed_key_involutive",
+    "DaeVerif.C19.Props.track_keys_are_kernel_keys",
+    "DaeVerif.C19.Props.kernel_loses_only_held_keys",
+    "DaeVerif.C19.Props.conn_state_entries_never_outlive_their_endpoints",
+    "DaeVerif.C19.Props.all_released_nothing_left",
+    "DaeVerif.C19.Props.tracker_counts_are_exact",
+    "DaeVerif.C19.Props.match_set_model_follows_layout",
+    "DaeVerif.C19.Props.match_set_image_reads_back",
 ]
 
 
@@ -112,12 +125,13 @@ def diagnostics(ctx):
         return 0
     c = dict(kv.split("=") for kv in counts[0].split())
     ops = []
-    for k in ("obl", "const", "limit", "map", "mapio", "cclass", "fieldlit", "param", "endian", "wiretype"):
+    for k in ("obl", "const", "limit", "map", "mapio", "buildsite", "cclass", "fieldlit", "param", "endian", "wiretype"):
         ops += [f"{k} {i}" for i in range(int(c.get(k, 0)))]
     ops += ["classify", "handles", "genfiles", "listencheck", "conncheck", "keymodelcheck", "statscheck", "progcheck", "overridecheck", "widthcheck", "cbidcheck", "mapiocover", "notes", "archreport", "wirereport"]
     ans = drv(ctx, ops, "c19diag") or []
     n = 0
     needs_class = []   # closure obligations: something NEW must be classified in Model.lean — not a finding about dae
+    unclassified_sites = []   # construction sites of kernel-bound types nobody executes: fail closed AFTER the execution streams ran
     grouped = {}   # layout obligations that fail identically on several GOARCHes are one finding
     for op, a in zip(ops, ans):
         if op in ("archreport", "wirereport"):
@@ -130,6 +144,15 @@ def diagnostics(ctx):
             continue
         if a.startswith("BAD") and (op.startswith("cclass ") or op == "classify"):
             needs_class.append(a[4:])
+            continue
+        if op.startswith("buildsite "):
+            if a.startswith("UNCLASSIFIED"):
+                unclassified_sites.append(a[13:])
+            elif a.startswith("ok"):
+                k = "build_sites." + ("classified" if "(classified)" in a else "auto-executed" if "(auto-executed" in a else "not-kernel-bound")
+                ctx.cov[k] = ctx.cov.get(k, 0) + 1
+            else:
+                ctx.report("diagnostic op gave no verdict: %s -> %s" % (op, a), {"op": op, "answer": a})
             continue
         if op == "notes":
             if a != "none":
@@ -150,15 +173,66 @@ def diagnostics(ctx):
                     "replay": "cd /verif && ./check C19 quick   # then: echo '%s' | lean/.lake/build/bin/c19drv" % where[0][1]})
     ctx.cov["table_items_checked"] = n
     ctx.c19_needs_class = needs_class
+    ctx.c19_unclassified_sites = unclassified_sites
     return n
 
 
-def go_variant(ctx, variant):
+def ctor_shape(c):
+    """mirror of `autoShape?` (lean/DaeVerif/C19/Lifecycle.lean); the driver's own opinion is compared in ctor_verdicts"""
+    base = c["type"].split(".", 1)[1]
+    if c["nres"] != 1:
+        return None
+    if base == "bpfTuplesKey":
+        if c["params"] == ["netip.AddrPort", "netip.AddrPort", "uint8"]:
+            return "ap"
+        if c["params"] in (["*bpfTuplesKey"], ["bpfTuplesKey"]):
+            return "kk"
+    if base == "_bpfLpmKey" and c["params"] == ["netip.Prefix"]:
+        return "pfx"
+    return None
+
+
+def write_ctor_registry(ctx, gen_out, variant):
+    """The helper constructors of shared key types that the translator found in the CURRENT sources
+    (c19_go.json ctorSigs), as a registry the harness iterates over: a helper added tomorrow is executed
+    without anybody telling the harness about it."""
+    gj = json.load(open(os.path.join(gen_out, "c19_go.json")))
+    ap, kk, pfx = [], [], []
+    for c in gj.get("ctorSigs") or []:
+        if variant not in (c.get("builds") or []):
+            continue
+        sh = ctor_shape(c)
+        f = c["func"]
+        deref = "*" if c["ptr"] else ""
+        if sh == "ap":
+            ap.append('\t{"%s", func(src, dst netip.AddrPort, proto uint8) []byte { k := %s(src, dst, proto); return c19KeyBytes(%sk) }},' % (f, f, deref))
+        elif sh == "kk":
+            arg = "&in" if c["params"][0].startswith("*") else "in"
+            kk.append('\t{"%s", func(img []byte) []byte { in := c19KeyFromBytes(img); k := %s(%s); return c19KeyBytes(%sk) }},' % (f, f, arg, deref))
+        elif sh == "pfx":
+            pfx.append('\t{"%s", func(p netip.Prefix) []byte { k := %s(p); return c19LpmBytes(%sk) }},' % (f, f, deref))
+    src = ("// GENERATED by checks/c19.py write_ctor_registry from translators/c19_go (ctorSigs) — do not edit\n"
+           "package control\n\nimport \"net/netip\"\n\nvar _ netip.Addr\n\n"
+           "var c19GenCtorsAP = []c19CtorAP{\n" + "\n".join(ap) + "\n}\n\n"
+           "var c19GenCtorsKK = []c19CtorKK{\n" + "\n".join(kk) + "\n}\n\n"
+           "var c19GenCtorsPfx = []c19CtorPfx{\n" + "\n".join(pfx) + "\n}\n")
+    path = os.path.join(gen_out, f"c19_ctors_{variant}_test.go")
+    open(path, "w").write(src)
+    return {os.path.join(REPO, "control", "zz_verif_c19ctors_test.go"): path}
+
+
+HARNESS_FILES = ["control/c19_test.go", "control/c19b_test.go"]
+
+
+def go_variant(ctx, variant, gen_out):
+    extra = write_ctor_registry(ctx, gen_out, variant)
     if variant == "real":
         fake = ctx.fake_bpf_overlay()
-        binp = fake and ctx.go_test_build("control", ["control/c19_test.go"], "c19real", tags="", extra_overlay=fake)
+        if fake:
+            extra.update(fake)
+        binp = fake and ctx.go_test_build("control", HARNESS_FILES, "c19real", tags="", extra_overlay=extra)
     else:
-        binp = ctx.go_test_build("control", ["control/c19_test.go"], "c19stub")
+        binp = ctx.go_test_build("control", HARNESS_FILES, "c19stub", extra_overlay=extra)
     if not binp:
         return None
     rc, out = ctx.run_harness(binp, "TestVerifC19")
@@ -167,6 +241,64 @@ def go_variant(ctx, variant):
         ctx.say("HARNESS-FAILED", out[-3000:])
         return None
     return ops
+
+
+def ctor_verdicts(ctx, variant):
+    """Helper constructors (generated registry): the model answers every op with the derivations the KERNEL
+    has for that signature (get_tuples of the flow / of its reply direction; identity / copy_reversed_tuples;
+    struct lpm_key of the prefix).  A helper is accepted iff ONE derivation fits all of its lines — the one
+    `ctorMeaning` names for the helpers known by name."""
+    base = os.path.join(ctx.out, f"c19ctor_{variant}")
+    if not os.path.exists(base + ".ops"):
+        ctx.report("the helper-constructor stream was not produced by the harness", {"variant": variant}, no_input=True)
+        return 0, {}
+    if not ctx.driver("c19drv", base + ".ops", base + ".model"):
+        ctx.proof_failures.append("model driver c19drv failed on the ctor stream")
+        return 0, {}
+    sigs = drv(ctx, ["ctorsigs"], "c19ctorsigs") or [""]
+    meaning, shapes = {}, {}
+    for it in sigs[0].split(";"):
+        w = it.split(":")
+        if len(w) == 4:
+            shapes.setdefault(w[0], set()).add(w[2])
+            if w[3] != "-":
+                meaning[w[0]] = w[3]
+    ops, impl, model = read_lines(base + ".ops"), read_lines(base + ".impl"), read_lines(base + ".model")
+    if not (len(ops) == len(impl) == len(model)):
+        ctx.report(f"ctor stream lengths differ: ops={len(ops)} impl={len(impl)} model={len(model)}", {"stream": base}, no_input=True)
+        return 0, {}
+    per = {}
+    for op, im, mo in zip(ops, impl, model):
+        fn = op.split()[1]
+        cands = dict(kv.split("=", 1) for kv in mo.split() if "=" in kv)
+        d = per.setdefault(fn, {"alive": None, "lines": 0, "discriminating": 0, "first_bad": None, "kind": op.split()[0]})
+        d["lines"] += 1
+        if len(set(cands.values())) > 1 or len(cands) == 1:
+            d["discriminating"] += 1
+        fit = {n for n, h in cands.items() if h == im}
+        if not fit and d["first_bad"] is None:
+            d["first_bad"] = (op, im, mo)
+        d["alive"] = fit if d["alive"] is None else (d["alive"] & fit)
+    verdict = {}
+    for fn, d in sorted(per.items()):
+        want = meaning.get(fn)
+        ok = bool(d["alive"]) and (want is None or want in d["alive"])
+        verdict[fn] = {"lines": d["lines"], "fits": sorted(d["alive"] or []), "required": want or "any one kernel derivation"}
+        if ok:
+            if want is None:
+                ctx.say(f"NOTE: helper constructor {fn} (not known to the check by name) was executed on {d['lines']} generated inputs and is the kernel's `{sorted(d['alive'])[0]}` derivation on all of them")
+            continue
+        if d["first_bad"]:
+            op, im, mo = d["first_bad"]
+            ctx.report(f"helper constructor {fn} builds a key that no kernel-side constructor produces for the same input: op `{op[:200]}` Go `{im}` kernel derivations `{mo[:260]}`",
+                       {"stream": f"c19ctor_{variant}", "op": op, "impl": im, "model": mo, "function": fn,
+                        "replay": "VERIF_SEED=%d ./check C19 %s" % (ctx.seed, ctx.tier)})
+        else:
+            ctx.report(f"helper constructor {fn} does not compute ONE kernel derivation on all inputs (fits {sorted(d['alive'] or [])}, required: {want or 'any single one'})",
+                       {"stream": f"c19ctor_{variant}", "function": fn, "replay": "VERIF_SEED=%d ./check C19 %s" % (ctx.seed, ctx.tier)})
+    ctx.c19_distinct.update(ops)
+    ctx.cov.setdefault("helper_constructors", {})[variant] = verdict
+    return len(ops), verdict
 
 
 def gen_variant(ctx):
@@ -303,6 +435,7 @@ def c_side(ctx, gen_out, flow_files):
         ops.append("cmap " + m["name"]); inc("cmap")
     # -- keys for the same logical entities the Go harness used
     cross = []   # (op index, kind, expected-from-Go)
+    cenum = {c["name"]: c["val"] for e_ in cj["enums"] for c in e_["consts"]}
     for ff in flow_files:
         for line in read_lines(ff):
             w = line.split()
@@ -310,6 +443,16 @@ def c_side(ctx, gen_out, flow_files):
                 _, fam, s, d, sp, dp, proto, gokey, gorev = w
                 cross.append((len(ops), "tuples", (gokey, gorev)))
                 ops.append(f"ctuples " + HOST_E + f" {fam} {s} {d} {sp} {dp} {proto}"); inc("ctuples." + fam)
+            elif w[0] == "kflow":
+                # keys the Go harness installed in real maps AS the kernel's keys (c19KernelKey): must be what
+                # get_tuples / copy_reversed_tuples compute for that packet
+                _, fam, s_, d_, sp, dp, proto, kfwd, krev = w
+                cross.append((len(ops), "ktuples", (kfwd, krev)))
+                ops.append(f"ctuples " + HOST_E + f" {fam} {s_} {d_} {sp} {dp} {proto}"); inc("ctuples.kflow." + fam)
+            elif w[0] == "matchset2":
+                _, view, val, mtname, not_, ob, must, mark, img = w
+                cross.append((len(ops), "msimg", (view, val, mtname, not_, ob, must, mark)))
+                ops.append("cdec " + HOST_E + " match_set " + img); inc("cdec.msimg")
             elif w[0] in ("dom", "lpmhost"):
                 _, fam, d, gokey = w
                 d16 = d if fam == "v6" else "00000000000000000000ffff" + d
@@ -387,6 +530,21 @@ def c_side(ctx, gen_out, flow_files):
         ok = True
         if kind == "tuples":
             ok = got == f"key={want[0]} rev={want[1]}"
+        elif kind == "ktuples":
+            ok = got.startswith(f"key={want[0]} ") and (want[1] == "-" or got.endswith(f" rev={want[1]}"))
+        elif kind == "msimg":
+            view, val, mtname, not_, ob, must, mark = want
+            d = dict(kv.split("=", 1) for kv in got.split(";") if "=" in kv)
+            if view == "port_range":
+                a, b = val.split("-")
+                ok = d.get("port_range.port_start") == a and d.get("port_range.port_end") == b
+            elif view == "__value":
+                ok = "".join("%02x" % int(x) for x in d.get("__value", "").split("|") if x != "") == val
+            elif view != "-":
+                ok = d.get(view, "").split("|")[0] == val
+            ctype = cenum.get(mtname)
+            ok = ok and ctype is not None and d.get("type") == str(ctype) and d.get("not") == not_ and d.get("outbound") == ob \
+                and d.get("must") == must and d.get("mark") == mark
         elif kind == "dom":
             ok = ("dom=" + want) in got.split()
         elif kind == "lpmhost":
@@ -414,7 +572,9 @@ def c_side(ctx, gen_out, flow_files):
             bad += 1
             if bad <= 5:
                 what = ("the slot wan_outbound_is_alive() reads differs from the slot outboundAliveChangeCallback wrote into the map"
-                        if kind == "conn-written" else f"kernel and control plane compute different bytes for the same {kind}")
+                        if kind == "conn-written" else
+                        "the harness's rendering of the kernel key (c19KernelKey) is not what get_tuples/copy_reversed_tuples compute — HARNESS out of date, not a verdict about dae"
+                        if kind == "ktuples" else f"kernel and control plane compute different bytes for the same {kind}")
                 ctx.report(f"{what}: C `{got[:200]}` Go `{str(want)[:200]}` ({ops[i][:160]})",
                            {"kind": kind, "c_op": ops[i], "c": got, "go": want})
     ctx.cov["cross_checked_entities"] = len(cross)
@@ -466,12 +626,24 @@ FLOORS = {
     "go-real": {"connwrite": 6912, "conn": 6912, "flow.v4.is4": 100, "flow.v4.mapped": 50, "flow.v4.mixedforms": 10, "flow.v6": 100,
                 "flow.v6.literal-v4mapped": 10, "flow.port53": 10, "flow.port-boundary": 30, "lpm": 300, "lpm.host": 50,
                 "lpm.boundary-length": 40, "domkey.production": 300, "domsync": 60, "matchset.byteval": 60, "matchset.setidx": 40,
-                "matchset.ring": 30, "matchset.mackey": 40, "matchset.port": 30, "golayout": 14, "goconst": 40, "htons": 200},
+                "matchset.ring": 30, "matchset.mackey": 40, "matchset.port": 30, "golayout": 14, "goconst": 40, "htons": 200,
+                # part 2: helper constructors, conn_state key lifecycle, routing-result lookups, match_set images
+                "ctor.functions": 2, "ctor.ap": 150, "ctor.pfx": 150,
+                "udptrack.histories": 40, "udptrack.track": 120, "udptrack.track.v4": 20, "udptrack.track.v4mapped": 20, "udptrack.track.v6": 20,
+                "udptrack.release": 100, "udptrack.adopt": 30, "udptrack.kernel-entry": 300, "udptrack.flow.kernel-has-no-entry": 5,
+                "udptrack.flow.repeated": 5, "udptrack.shared-source": 2, "udptrack.reseen": 5, "udptrack.fault.delete-fails": 2,
+                "udptrack.option.delete-each": 3, "udptrack.option.batch-delete": 3,
+                "rlookup": 200, "rlookup.conn": 20, "rlookup.handoff": 15, "rlookup.conn-other-proto": 8, "rlookup.conn-reversed": 15,
+                "rlookup.conn-no-routing": 15, "rlookup.none": 8,
+                "msimg": 60, "msimg.addDomain": 5, "msimg.addIp": 5, "msimg.addSourceIp": 5, "msimg.addPort": 5, "msimg.addSourcePort": 5,
+                "msimg.addL4Proto": 5, "msimg.addIpVersion": 5, "msimg.addSourceMac": 5, "msimg.addProcessName": 5, "msimg.addDscp": 5,
+                "msimg.addFallback": 5, "msimg.builder-with-many-rules": 5},
     "generator": {"spec": 150, "outbound.custom": 100, "outbound.custom.odd-underscores": 30},
     "c-native": {"clayout": 20, "cconst": 60, "cmap": 15, "ctuples.v4": 200, "ctuples.v6": 100, "croute.dom": 300, "croute.lpmhost": 50,
                  "croute.mackey": 40, "cmacsite.lan": 40, "cmacsite.wan_tcp": 40, "cmacsite.wan_udp": 40, "cconn": 6000, "clisten": 10,
                  "cdec.matchset.l4proto_type": 20, "cdec.matchset.ip_version": 20, "cdec.matchset.dscp": 20, "cdec.matchset.index": 60,
-                 "cdec.matchset.port_range": 30, "cross.total": 8000},
+                 "cdec.matchset.port_range": 30, "cross.total": 8000,
+                 "ctuples.kflow.v4": 200, "ctuples.kflow.v6": 100, "cdec.msimg": 60},
 }
 
 
@@ -485,7 +657,7 @@ def below_floor(dist):
     return out
 
 
-ENV_MARKERS = ("cannot-create-bpf-array-map", "cannot-create-bpf-hash-map", "dump-error:")
+ENV_MARKERS = ("cannot-create-bpf-array-map", "cannot-create-bpf-hash-map", "dump-error:", "freeze-error:", "clock-error:")
 NEEDS_UPDATE_MARKERS = ("route-not-reached", "missing-lookups")
 
 
@@ -544,7 +716,7 @@ def _run(ctx):
     variants = ["real", "stub"] if ctx.tier == "thorough" else ["real"]
     # The Go harness builds do not depend on the Lean build: run them beside it (<= 3 jobs).
     pool = ThreadPoolExecutor(max_workers=2)
-    f_go = {v: pool.submit(go_variant, ctx, v) for v in variants}
+    f_go = {v: pool.submit(go_variant, ctx, v, gen_out) for v in variants}
     f_gen = pool.submit(gen_variant, ctx)
     f_arch = pool.submit(archcheck, ctx, gen_out)
 
@@ -563,9 +735,15 @@ def _run(ctx):
                 "theorems every_c_const_classified / every_go_type_classified do not know; extend the tables in "
                 "lean/DaeVerif/C19/Model.lean as the messages say, then re-run")
         return 2
-    ctx.prove(["DaeVerif.C19.Props"], ["DaeVerif.C19.Props"], ["DaeVerif/C19/*.lean", "DaeVerif/C19/Gen/*.lean"],
-              extra_targets=["c19drv"])
-    ctx.required_theorems(REQUIRED)
+    unclassified = getattr(ctx, "c19_unclassified_sites", [])
+    if unclassified:
+        # `every_build_site_classified` is refuted by the regenerated table (the diagnostics above say where): the
+        # execution streams still run, so that a construction site that builds WRONG bytes is reported with the bytes
+        ctx.proof_failures.append("DaeVerif.C19.Props.every_build_site_classified is refuted by the regenerated table: " + " | ".join(unclassified)[:1500])
+    else:
+        ctx.prove(["DaeVerif.C19.Props"], ["DaeVerif.C19.Props"], ["DaeVerif/C19/*.lean", "DaeVerif/C19/Gen/*.lean"],
+                  extra_targets=["c19drv"])
+        ctx.required_theorems(REQUIRED)
 
     total = n_items
     stats = {}
@@ -576,6 +754,8 @@ def _run(ctx):
             return 2
         total += diff(ctx, "go-" + v, ops, ops[:-4] + ".impl", ops[:-4] + ".model")
         stats[v] = json.load(open(os.path.join(ctx.out, f"c19go_{v}.stats.json")))
+        nctor, verdict = ctor_verdicts(ctx, v)
+        total += nctor
     ctx.samples = stats[variants[0]]["samples"][:4]
     ctx.cov["input_distribution"] = {"go-" + v: s["counters"] for v, s in stats.items()}
     # every Go data type of the tables was looked at in-process (except the function-local PARAM literal)
@@ -609,6 +789,14 @@ def _run(ctx):
         ctx.report("Go layout table not confirmed by the compiler: " + b, {"kind": "archcheck", "detail": b})
     ctx.cov["archcheck_goarches"] = len(RELEASE_ARCHES) - len(arch_bad)
     total += len(RELEASE_ARCHES)
+    # construction sites of kernel-bound types that no stream executes: fail closed (after the execution
+    # streams had their chance to show a concrete disagreement)
+    if unclassified and not [v for v in ctx.violations if not v[2]]:
+        for m in ctx.c19_unclassified_sites:
+            ctx.say("UNCLASSIFIED-CONSTRUCTION-SITE: " + m)
+        ctx.say("UNCLASSIFIED-CONSTRUCTION-SITE (exit 2, fail closed — not a verdict about dae): package control builds a value of a type it "
+                "hands to the kernel at a place no C19 stream executes against the kernel-side constructor")
+        return 2
     low = below_floor(ctx.cov["input_distribution"])
     if low and not ctx.violations and not ctx.proof_failures:
         ctx.say("COVERAGE-BELOW-FLOOR (not a pass): " + "; ".join(low))
